@@ -1153,6 +1153,9 @@ func replay(r *report.Run, file string) {
 		it.LDepth = len(path)
 		fmt.Sscanf(path[0], "<ladder%d>", &it.KMax)
 	}
+	if kind == "setup" {
+		it.LDepth, it.KMax = 1, 4 // the set-up includes building the ladder seeds
+	}
 	mainSpec, ladderSpec, f := e.specs(it, time.Time{})
 	spec := mainSpec
 	if kind == "ladder" {
